@@ -1,6 +1,8 @@
 package main
 
 import (
+	"time"
+	"crypto/sha256"
 	"sync"
 	"fmt"
 	"go/constant"
@@ -23,6 +25,36 @@ type Cond struct {
 	val  bool
 	ra, rb *RExpr
 	uterm, uterm2 string // uninterpreted terms ("ueq": equality, "ubool": boolean-valued application)
+	hs   string // memoised structural digest (int-mode composite nodes)
+}
+
+var condSeq int64
+
+// digest: structural key of a condition, linear in the size of the DAG (shared sub-conditions are hashed once).
+func (c *Cond) digest() string {
+	if c.hs != "" {
+		return c.hs
+	}
+	var s string
+	switch {
+	case c.bv != nil:
+		s = fmt.Sprintf("bv%d", c.bv.id)
+	case c.kind == "not" || c.kind == "and" || c.kind == "imp":
+		t := c.kind + "(" + c.x.digest()
+		if c.y != nil {
+			t += "," + c.y.digest()
+		}
+		t += ")"
+		if len(t) > 64 {
+			h := sha256.Sum256([]byte(t))
+			t = fmt.Sprintf("#%x", h[:12])
+		}
+		s = t
+	default:
+		s = c.smt(newPrinter())
+	}
+	c.hs = s
+	return s
 }
 
 func cConst(b bool) *Cond { return &Cond{kind: "const", val: b} }
@@ -109,12 +141,30 @@ func (c *Cond) smt(p *printer) string {
 		return "(" + c.op + " " + c.a.smt() + " " + c.b.smt() + ")"
 	case "cong":
 		return "(= (mod " + c.a.smt() + " " + c.mod.String() + ") 0)"
-	case "not":
-		return "(not " + c.x.smt(p) + ")"
-	case "and":
-		return "(and " + c.x.smt(p) + " " + c.y.smt(p) + ")"
-	case "imp":
-		return "(=> " + c.x.smt(p) + " " + c.y.smt(p) + ")"
+	case "not", "and", "imp":
+		if n, ok := p.cname[c]; ok {
+			return n
+		}
+		var t string
+		switch c.kind {
+		case "not":
+			t = "(not " + c.x.smt(p) + ")"
+		case "and":
+			t = "(and " + c.x.smt(p) + " " + c.y.smt(p) + ")"
+		default:
+			t = "(=> " + c.x.smt(p) + " " + c.y.smt(p) + ")"
+		}
+		if len(t) > 160 {
+			// shared sub-conditions are named once: the script stays linear in the size of the DAG
+			if p.cname == nil {
+				p.cname = map[*Cond]string{}
+			}
+			n := fmt.Sprintf("k!%d", len(p.cname))
+			fmt.Fprintf(&p.sb, "(define-fun %s () Bool %s)\n", n, t)
+			p.cname[c] = n
+			return n
+		}
+		return t
 	case "req":
 		return "(= " + p.rref(c.ra) + " " + p.rref(c.rb) + ")"
 	case "ueq":
@@ -240,6 +290,13 @@ type Machine struct {
 	oblSeen   map[string]bool
 	effects   []string
 	effectsOn bool
+	mathIn    map[string]bool
+	mathDepth int
+	wrapConv  bool
+	prune     bool
+	deadline  time.Time
+	steps     int
+	pruneZ    *solverProc
 	approxBits bool
 	concrete  []string // concrete mode: values of the nondet symbols in creation order
 	concPos   int
@@ -391,9 +448,10 @@ func (m *Machine) oblige(claim *Cond, what, pos string) {
 	// de-duplicate by (site, claim, path condition)
 	p := newPrinter()
 	var sb strings.Builder
-	sb.WriteString(what + "|" + pos + "|" + claim.smt(p))
+	_ = p
+	sb.WriteString(what + "|" + pos + "|" + claim.digest())
 	for _, c := range m.cur.pc {
-		sb.WriteString("|" + c.smt(p))
+		sb.WriteString("|" + c.digest())
 	}
 	k := sb.String()
 	if m.oblSeen[k] {
@@ -520,7 +578,7 @@ func ptrExtend(p Ptr, pe PathElem) Ptr {
 
 // ---------- ints ----------
 func (m *Machine) rangeObl(l *Lin, t types.Type, what string, pos token.Pos) {
-	if l.isConst() || m.approxBits {
+	if l.isConst() || m.approxBits || m.mathDepth > 0 {
 		return // effect harnesses approximate values: arithmetic claims belong to the functional harnesses (C01, C02)
 	}
 	w, signed, ok := intInfo(t)
@@ -534,6 +592,10 @@ func (m *Machine) rangeObl(l *Lin, t types.Type, what string, pos token.Pos) {
 	} else {
 		lo = big.NewInt(0)
 		hi = mask(w)
+	}
+	if il, ih := m.interval(l); il != nil && il.Cmp(lo) >= 0 && ih.Cmp(hi) <= 0 {
+		m.stats["range_by_interval"]++
+		return // inside the type's range by interval arithmetic over the symbols' bounds
 	}
 	c := cAnd(cCmp("<=", linConst(lo), l), cCmp("<=", l, linConst(hi)))
 	m.oblige(c, "overflow: "+what+" "+t.String(), m.prog.Fset.Position(pos).String())
@@ -830,7 +892,9 @@ func (m *Machine) binopInt(op token.Token, a, b *Lin, t types.Type, pos token.Po
 		if !a.isConst() && b.isConst() && b.c.Sign() > 0 {
 			// symbolic dividend, constant positive divisor: Go truncates towards zero, the memoised pair is Euclidean;
 			// they coincide for dividends >= 0, which is an obligation
-			m.oblige(cCmp("<=", linConstI(0), a), "division: dividend of a constant divisor is non-negative (truncated = Euclidean)", m.prog.Fset.Position(pos).String())
+			if il, _ := m.interval(a); il == nil || il.Sign() < 0 {
+				m.oblige(cCmp("<=", linConstI(0), a), "division: dividend of a constant divisor is non-negative (truncated = Euclidean)", m.prog.Fset.Position(pos).String())
+			}
 			q, r0 := m.divmod(a, b.c)
 			if op == token.QUO {
 				return VInt{lin: q}
@@ -1020,6 +1084,12 @@ func (m *Machine) convert(v Value, from, to types.Type, pos token.Pos) Value {
 					return VInt{lin: linConst(new(big.Int).Mod(iv.lin.c, new(big.Int).Lsh(big.NewInt(1), uint(tw))))}
 				}
 				return VInt{lin: r}
+			}
+			if m.wrapConv && ts && (tw < fw || (tw == fw && !fs)) && !iv.lin.isConst() {
+				// Go's conversion to a narrower signed type wraps: exact model ((v + 2^(w-1)) mod 2^w) - 2^(w-1)
+				half := new(big.Int).Lsh(big.NewInt(1), uint(tw-1))
+				_, r := m.divmod(iv.lin.add(linConst(half), 1), new(big.Int).Lsh(big.NewInt(1), uint(tw)))
+				return VInt{lin: r.add(linConst(half), -1)}
 			}
 			m.rangeObl(iv.lin, to, "conversion", pos)
 			return iv
